@@ -340,6 +340,19 @@ def _flatten_cond(fn, c, truth):
     d = fn.defs.get(c.v) if c.kind == "reg" else None
     if d is None:
         return []
+    if d.op == "icmp" and d.x["pred"] in ("eq", "ne"):
+        # a materialised boolean tested against 0 / 1: `(x < 0) != 0` is `x < 0`
+        for x, y in ((d.ops[0], d.ops[1]), (d.ops[1], d.ops[0])):
+            if y.kind == "int" and y.v in (0, 1) and x.kind == "reg":
+                xd = fn.defs.get(x.v)
+                hops = 0
+                while xd is not None and xd.op in ("zext", "sext", "trunc") and xd.ops[0].kind == "reg" and hops < 4:
+                    x = xd.ops[0]
+                    xd = fn.defs.get(x.v)
+                    hops += 1
+                if hops > 0 and xd is not None and xd.op in ("icmp", "fcmp", "xor"):
+                    same = (d.x["pred"] == "ne") == (y.v == 0)
+                    return _flatten_cond(fn, x, truth if same else not truth)
     if d.op in ("icmp", "fcmp"):
         return [(d, truth)]
     if d.op == "xor" and d.ops[1].kind == "int" and d.ops[1].v in (1, -1):
